@@ -347,9 +347,10 @@ RpApiCheck(C, H, proof, extra, hasNonce, nonce32, mlenIn) ==
       ip == IF h.ok THEN [ iret |-> 1, iexp |-> h.exp, imant |-> h.mant, imin |-> U64To8(h.min), imax |-> U64To8(h.max) ] ELSE [ iret |-> 0 ]
       rp == IF ~hasNonce THEN [ icb |-> 0 ]
             ELSE LET rw == RpRewindFrom(vr, C, H, proof, nonce32, mlenIn) IN
-                 IF rw.ok THEN [ rret |-> 1, rvalue |-> U64To8(rw.value), rblind |-> Scalar32(rw.blind), rmsg |-> rw.msg,
+                 \* rret0: the same rewind with NO output requested (blind, value, message, length all NULL): the verdict is the same
+                 IF rw.ok THEN [ rret |-> 1, rret0 |-> 1, rvalue |-> U64To8(rw.value), rblind |-> Scalar32(rw.blind), rmsg |-> rw.msg,
                                  rmin |-> U64To8(rw.min), rmax |-> U64To8(rw.max), rguard |-> 1 ]
-                 ELSE [ rret |-> 0 ]
+                 ELSE [ rret |-> 0, rret0 |-> 0 ]
   IN  vp @@ ip @@ rp @@ [ icb |-> 0 ]
 RpOpt(i, k) == IF k \in DOMAIN i THEN i[k] ELSE << >>
 RpOutVerify(i) ==
